@@ -302,10 +302,11 @@ def run_cases(ctx, cases):
 
 def run(ctx):
     ctx.make_overlay(need_kernel=True)
-    ctx.regen_all()
+    ctx.regen_all(needed=("py2v_readbatch.py",))  # Gen/ReadBatchGen.v: the four batch readers as the source has them now
     ok = ctx.build_models(MODELS)
     if ok:
         ctx.build_props()
+        ctx.build_props("Props/C12g.vo")  # the generated column-wise readers return the rows of the row model
     cases = gen_cases(ctx)
     n_eval = nt = 0
     try:
